@@ -59,3 +59,29 @@ Definition char_to_digit16 (x : N) : option N :=
   else None.
 Definition char_is_hexdigit (x : N) : bool :=
   match char_to_digit16 x with Some _ => true | None => false end.
+
+(* i32: Z with checked operators; casts wrap *)
+Definition i32_in (r : Z) : bool := ((-2147483648 <=? r) && (r <=? 2147483647))%Z.
+Definition i32_add (x y : Z) : option Z := if i32_in (x + y) then Some (x + y)%Z else None.
+Definition i32_sub (x y : Z) : option Z := if i32_in (x - y) then Some (x - y)%Z else None.
+Definition i32_mul (x y : Z) : option Z := if i32_in (x * y) then Some (x * y)%Z else None.
+Definition i32_wrap (r : Z) : Z := ((r + 2147483648) mod 4294967296 - 2147483648)%Z.
+Definition u32_as_i32 (x : N) : Z := i32_wrap (Z.of_N x).
+Definition i32_as_u32 (x : Z) : N := Z.to_N (x mod 4294967296).
+
+(* iterator adaptors whose closure can panic: evaluation order and short-circuit as in Rust *)
+Fixpoint all_m {A} (f : A -> option bool) (l : list A) : option bool :=
+  match l with
+  | [] => Some true
+  | x :: r => do b <- f x; if b then all_m f r else Some false
+  end.
+Fixpoint any_m {A} (f : A -> option bool) (l : list A) : option bool :=
+  match l with
+  | [] => Some false
+  | x :: r => do b <- f x; if b then Some true else any_m f r
+  end.
+Fixpoint map_m {A B} (f : A -> option B) (l : list A) : option (list B) :=
+  match l with
+  | [] => Some []
+  | x :: r => do y <- f x; do ys <- map_m f r; Some (y :: ys)
+  end.
